@@ -7,9 +7,14 @@ open Slock.Engine (has mkReply)
 theorem Fr.dropT (w : W) (rid : Nat) : Fr w (w.dropT rid) := (FQ.modR _ _ _).fr.trans (Fr.unrefCheck _ _)
 theorem Fr.dropE (w : W) (rid : Nat) : Fr w (w.dropE rid) := (FQ.modR _ _ _).fr.trans (Fr.unrefCheck _ _)
 
+theorem Fr.wheelBroken (w : W) : Fr w w.wheelBroken :=
+  ⟨rfl, rfl, rfl, fun _ => rfl, ⟨[], by simp [W.wheelBroken]⟩, id, id, Nat.le_refl _, Or.inl ⟨rfl, rfl, rfl⟩⟩
+
 theorem W.fireTimeout_fr (w : W) (rid : Nat) : Fr w (w.fireTimeout rid) := by
   unfold W.fireTimeout
   simp only []
+  split
+  · exact Fr.wheelBroken _
   split
   · exact Fr.dropT _ _
   · refine Fr.trans ?_ (Fr.reply _ _ _ _ _)
@@ -20,6 +25,8 @@ theorem W.fireTimeout_fr (w : W) (rid : Nat) : Fr w (w.fireTimeout rid) := by
 theorem W.fireExpire_fr (w : W) (rid : Nat) : Fr w (w.fireExpire rid) := by
   unfold W.fireExpire
   simp only []
+  split
+  · exact Fr.wheelBroken _
   split
   · exact Fr.dropE _ _
   · split
@@ -36,6 +43,8 @@ theorem W.visitTimeout_fr (w : W) (slot : Bool) (rid : Nat) (w' : W) (h : w.visi
   unfold W.visitTimeout at h
   simp only [] at h
   split at h
+  · injection h with h; rw [← h]; exact Fr.wheelBroken _
+  split at h
   · injection h with h; rw [← h]; exact Fr.dropT _ _
   · split at h
     · injection h with h; rw [← h]; exact ((FQ.modR _ _ _).trans (FQ.addTimeOut _ _)).fr
@@ -44,6 +53,8 @@ theorem W.visitTimeout_fr (w : W) (slot : Bool) (rid : Nat) (w' : W) (h : w.visi
 theorem W.visitExpire_fr (w : W) (slot : Bool) (rid : Nat) (w' : W) (h : w.visitExpire slot rid = some w') : Fr w w' := by
   unfold W.visitExpire at h
   simp only [] at h
+  split at h
+  · injection h with h; rw [← h]; exact Fr.wheelBroken _
   split at h
   · injection h with h; rw [← h]; exact Fr.dropE _ _
   · split at h
